@@ -38,7 +38,9 @@ def run_scenarios(ctx, seeds, blocks, extra=(), vh=None, env=None, halt_ok=False
             # a chain that halts is C10's verdict (its check passes halt_ok); for every other property the rest of the scenario was
             # never executed, which is an exploration failure (exit 2), not a pass
             if not halt_ok:
-                raise vlib.Infra("scenario seed %d %s stopped after %d blocks: %s (panics: %s)" % (
+                if not hasattr(ctx, "deferred_infra"):
+                    ctx.deferred_infra = []
+                ctx.deferred_infra.append("scenario seed %d %s stopped after %d blocks: %s (panics: %s)" % (
                     s["seed"], " ".join(extra), s.get("blocks", 0), s["error"], str(s.get("panics"))[:300]))
     return lines, sums
 
